@@ -401,19 +401,34 @@ func (s *sim) newTx(o txOpts) *txDef {
 		return nil
 	}
 	switch o.special {
-	case "ghost": // a parent that never exists
+	case "ghost": // a parent that never exists — at the first, a middle or the last input position
 		g := s.nextID
 		s.nextID++
 		d.id = s.nextID
-		d.ins = append(d.ins, inDef{g, 0, 0xffffffff, 'g', 0})
+		pos := s.r.Intn(len(d.ins) + 1)
+		d.ins = append(d.ins[:pos], append([]inDef{{g, 0, 0xffffffff, 'g', 0}}, d.ins[pos:]...)...)
 		known = false
-	case "badidx":
-		d.ins[0].idx += 7
+	case "badidx": // an output index the parent does not have, at any position
+		d.ins[s.r.Intn(len(d.ins))].idx += 7
 		known = false
-	case "dupin":
-		d.ins = append(d.ins, d.ins[0])
+	case "dupin": // a duplicate of any input, inserted at any position
+		src := d.ins[s.r.Intn(len(d.ins))]
+		pos := s.r.Intn(len(d.ins) + 1)
+		d.ins = append(d.ins[:pos], append([]inDef{src}, d.ins[pos:]...)...)
 	case "badscript":
-		d.ins[0].kind = 'b'
+		d.ins[s.r.Intn(len(d.ins))].kind = 'b'
+	case "noins":
+		d.ins = nil
+		known = false
+	case "hetero": // inputs that differ in everything: sequences final / signalling / relative lock, version 2
+		d.ver = 2
+		seqs := []uint32{0xffffffff, 0xfffffffd, 1, 1 << 22, 1<<31 | 7, 0}
+		off := s.r.Intn(len(seqs))
+		for i := range d.ins {
+			d.ins[i].seq = seqs[(off+i)%len(seqs)]
+		}
+	case "fan": // many outputs: every loop over TxOut runs long
+		o.nOut = 20 + s.r.Intn(20)
 	case "coinbase":
 		d.ins = []inDef{{0, 0xffffffff, 0xffffffff, 'g', 0}}
 		known = false
@@ -666,8 +681,12 @@ func (s *sim) randomOpts() txOpts {
 	}
 	if r.Chance(22, 100) {
 		sp := []string{"ghost", "badidx", "dupin", "badscript", "coinbase", "ver3", "ver2", "nonstdout", "nulldata",
-			"nulldata2", "big", "big49k", "noouts", "lockh", "lockt", "lockh", "lockt", "overspend", "dust", "tiny", "tiny2", "tiny2", "bip68", "bip68", "bip68", "bip68"}
+			"nulldata2", "big", "big49k", "noouts", "lockh", "lockt", "lockh", "lockt", "overspend", "dust", "tiny", "tiny2", "tiny2", "bip68", "bip68", "bip68", "bip68", "noins", "hetero", "hetero", "hetero", "fan"}
 		o.special = sp[r.Intn(len(sp))]
+		if o.special == "hetero" {
+			o.nIn = 3 + r.Intn(2)
+			o.conflictP = int(r.Pick(0, 30))
+		}
 	}
 	return o
 }
@@ -1167,6 +1186,67 @@ func (P) Generate(g0 *core.Gen) {
 		for _, c := range cands {
 			if c.ok && made < g.N(40, 600) {
 				g.Case("concurrent", c.nt, c.par)
+				made++
+			}
+		}
+	}
+	// pinned schedule: a competing writer is started exactly while a submission holds the pool lock
+	{
+		type cand struct {
+			seq, pin string
+			nt       bool
+			ok       bool
+		}
+		cands := make([]cand, g.N(60, 600))
+		for k := range cands {
+			r := g.R.Fork()
+			pol := randomPolicy(r)
+			pol.maxOrphans = 100
+			s := newSim(r, pol, int(r.Pick(1, 2)))
+			s.baseChain(s.maturity + 2 + r.Intn(3))
+			s.scenarioBody(int(r.Pick(10, 20, 30)), false)
+			seq := s.line()
+			// mark up to four (submission, writer) pairs
+			ops := append([]string(nil), s.ops...)
+			var out []string
+			marks := 0
+			for i := 0; i < len(ops); i++ {
+				if marks < 4 && i+1 < len(ops) && (ops[i][0] == 'P' || ops[i][0] == 'A') &&
+					strings.ContainsRune("PARDXGO", rune(ops[i+1][0])) && r.Chance(40, 100) {
+					out = append(out, "S", ops[i], ops[i+1])
+					i++
+					marks++
+					continue
+				}
+				out = append(out, ops[i])
+			}
+			s.ops = out
+			cands[k] = cand{seq: seq, pin: s.line(), nt: marks > 0 && len(s.defs) >= 3}
+		}
+		var wg sync.WaitGroup
+		ch := make(chan int)
+		for w := 0; w < min(12, runtime.NumCPU()); w++ {
+			wg.Add(1)
+			go func() {
+				defer wg.Done()
+				for k := range ch {
+					func() {
+						defer func() { recover() }()
+						final, out := execRecord(cands[k].seq)
+						cands[k].ok = final == cands[k].seq && !strings.Contains(out, "nd") && !strings.Contains(out, "bad")
+					}()
+				}
+			}()
+		}
+		for k := range cands {
+			ch <- k
+		}
+		close(ch)
+		wg.Wait()
+		made := 0
+		for _, c := range cands {
+			if c.ok && made < g.N(40, 400) {
+				g.Case("pinned-schedule", c.nt, c.pin)
 				made++
 			}
 		}
